@@ -312,6 +312,16 @@ int main(void) {
         } else if (!strcmp(t[0], "cancel") && n == 2 && s_task(t[1]) >= 0) {
             do_cancel(s_task(t[1]));
             s_report();
+        } else if (!strcmp(t[0], "cancel_raw") && n == 2 && s_task(t[1]) >= 0) {
+            /* aws_task_scheduler_cancel_task without the wrapper's "is pending" guard: the task may never have been
+             * scheduled, have run already or have been cancelled already */
+            int tk = s_task(t[1]);
+            if ((size_t)tk >= s_nt) {
+                ++s_skipped;
+            } else {
+                aws_task_scheduler_cancel_task(&s_sched, &s_tasks[tk].task);
+            }
+            s_report();
         } else if (!strcmp(t[0], "run_all") && n == 2) {
             uint64_t time;
             if (!s_time(t[1], &time)) {
